@@ -180,7 +180,8 @@ func (eval Evaluator) PartialTracesSum(ctIn *Ciphertext, offset, n int, opOut *C
 
 	ringQ := ringQP.RingQ
 
-	opOut.Resize(opOut.Degree(), levelQ)
+	// Only the two components of the result are written: a receiver of higher degree is cut to degree one
+	opOut.Resize(1, levelQ)
 	*opOut.MetaData = *ctIn.MetaData
 
 	ctInNTT, err := NewCiphertextAtLevelFromPoly(levelQ, eval.BuffCt.Value[:2])
@@ -337,7 +338,8 @@ func (eval Evaluator) InnerFunction(ctIn *Ciphertext, batchSize, n int, f func(a
 
 	ringQ := params.RingQ().AtLevel(levelQ)
 
-	opOut.Resize(opOut.Degree(), levelQ)
+	// Only the two components of the result are written: a receiver of higher degree is cut to degree one
+	opOut.Resize(1, levelQ)
 	*opOut.MetaData = *ctIn.MetaData
 
 	P0 := params.RingQ().NewPoly()
